@@ -247,12 +247,16 @@ pub fn judge_files(spec: &Spec, cfg: &Cfg, h: &HirSpec, files: &Tree) -> Vec<Fin
         }
     }
     // ---------------- request files
+    // why two operations can share a module: names synthesised from the path, or explicit ids equal up to case/punctuation
+    let ids: Vec<&String> = spec.paths.iter().flat_map(|p| p.ops.iter()).filter_map(|o| o.operation_id.as_ref()).collect();
+    let case_only = ids.iter().enumerate().any(|(i, a)| ids.iter().skip(i + 1).any(|b| a != b && crate::specgen::norm(a) == crate::specgen::norm(b)));
+    let collision_class: &'static str = if case_only { "id_case_collision" } else { "synth_name_collision" };
     let mut req_files: BTreeSet<String> = BTreeSet::new();
     let client_ident = format!("{}Client", cfg_name(cfg));
     for o in &h.operations {
         let path = format!("src/request/{}.rs", o.file_name());
         if !req_files.insert(path.clone()) {
-            out.push(f("C06", "synth_name_collision", format!("two operations write {}", path)));
+            out.push(f("C06", collision_class, format!("two operations write {}", path)));
         }
         if h.operations.iter().filter(|x| x.file_name() == o.file_name()).count() > 1 {
             continue; // which operation the surviving file belongs to is the C06 finding itself
@@ -482,12 +486,12 @@ pub fn judge_files(spec: &Spec, cfg: &Cfg, h: &HirSpec, files: &Tree) -> Vec<Fin
     }
     let n_req = files.keys().filter(|p| p.starts_with("src/request/") && *p != "src/request/mod.rs").count();
     if n_req != h.operations.len() {
-        out.push(f("C06", "synth_name_collision", format!("{} operations, {} request modules on disk", h.operations.len(), n_req)));
+        out.push(f("C06", collision_class, format!("{} operations, {} request modules on disk", h.operations.len(), n_req)));
     }
     if cfg.examples {
         let n_ex = files.keys().filter(|p| p.starts_with("examples/")).count();
         if n_ex != h.operations.len() {
-            out.push(f("C06", "synth_name_collision", format!("{} operations, {} examples on disk", h.operations.len(), n_ex)));
+            out.push(f("C06", collision_class, format!("{} operations, {} examples on disk", h.operations.len(), n_ex)));
         }
     }
     // ---------------- C01: a complete crate, counted from the DOCUMENT (not from the extracted table)
@@ -498,11 +502,11 @@ pub fn judge_files(spec: &Spec, cfg: &Cfg, h: &HirSpec, files: &Tree) -> Vec<Fin
     }
     let n_ops_doc: usize = spec.paths.iter().map(|p| p.ops.len()).sum();
     if n_req != n_ops_doc {
-        out.push(f("C01", "synth_name_collision", format!("the document has {} operations, {} request modules on disk", n_ops_doc, n_req)));
+        out.push(f("C01", collision_class, format!("the document has {} operations, {} request modules on disk", n_ops_doc, n_req)));
     }
     let n_ex = files.keys().filter(|p| p.starts_with("examples/")).count();
     if cfg.examples && n_ex != n_ops_doc {
-        out.push(f("C01", "synth_name_collision", format!("examples enabled: the document has {} operations, {} examples on disk", n_ops_doc, n_ex)));
+        out.push(f("C01", collision_class, format!("examples enabled: the document has {} operations, {} examples on disk", n_ops_doc, n_ex)));
     }
     if !cfg.examples && n_ex != 0 {
         out.push(f("C01", "", format!("examples disabled but {} example files were written", n_ex)));
